@@ -151,11 +151,14 @@ def load_mir(path):
                     m = _HDR_CONST.match(line)
                     if not m:
                         if line.endswith(';'):      # `const X: T = const 41_usize;`
-                            m2 = re.match(r'^(const|static|static mut) (.*?): (.*?) = (.*);$', line)
+                            m2 = re.match(r'^(const|static mut|static) (.*) = (.*);$', line)
                             if m2:
-                                c = Fn(m2.group(2), 'constval', line, no)
-                                c.raw = [m2.group(4)]; c.ret_ty = m2.group(3)
-                                fns.setdefault(m2.group(2), c)
+                                body = m2.group(2)
+                                k = _last_top_colon(body)
+                                cname, cty = body[:k], body[k + 2:]
+                                c = Fn(cname, 'constval', line, no)
+                                c.raw = [m2.group(3)]; c.ret_ty = cty
+                                fns.setdefault(cname, c)
                             continue
                         raise MirParseError(f'line {no}: {line[:120]}')
                     name = m.group(2)
